@@ -386,6 +386,16 @@ def run_history(P):
                         for e in cl.events if e["kind"] == "group" and e["op"] == "LeaveGroup" and e["client_id"] == "client"]
     H["joined"] = any(e["kind"] == "group" and e["op"] == "JoinGroup.reply" and e["client_id"] == "client" and e.get("error") == 0
                       for e in cl.events)
+    # event windows of the reference run in which a JoinGroup of the client is waiting for its reply (for targeted stops)
+    jw, open_at = [], None
+    for e in cl.events:
+        if e["kind"] == "group" and e.get("client_id") == "client" and e.get("ev") is not None:
+            if e["op"] == "JoinGroup" and open_at is None:
+                open_at = e["ev"]
+            elif e["op"] == "JoinGroup.reply" and open_at is not None:
+                jw.append((open_at, e["ev"]))
+                open_at = None
+    H["join_windows"] = jw
     H["fault_hits"] = dict(plan.hits)
     H["sim_errors"] = [e for e in cl.events if e["kind"] in ("SIM_ENCODE_ERROR", "undecodable_request", "bad_header",
                                                               "unsupported_request")]
